@@ -99,7 +99,7 @@ def skeletons(b1, b2):
 
 
 def initial(kind: str, alloc=(0, 1, 2)) -> Tuple[refvm.RefState, refvm.QModel]:
-    s = refvm.RefState(unit_size=4)
+    s = refvm.RefState(unit_size=6)
     s.regs[("R", 5)] = 1
     s.regs[("R", 3)] = 10
     s.arrays = {0: [0, 1, 2]}
@@ -108,6 +108,8 @@ def initial(kind: str, alloc=(0, 1, 2)) -> Tuple[refvm.RefState, refvm.QModel]:
         s.alloc.add(v)
         qm.alloc(v)
     names = [qm.vmap[v] for v in alloc]
+    if not names:
+        return s, qm
     if kind == "basis":
         qm.q.apply(qsim.X, names[-1])
     elif kind == "product":
@@ -324,12 +326,54 @@ def shard_mov(sh):
     return part
 
 
+def shard_corpus(sh):
+    """Vanilla subroutines the REAL builder emits for NV hardware (C05's statement pool: contexts, loops, conditionals,
+    measurements, relocations with mov), captured before transpilation, then judged like the skeletons."""
+    from netqasm.sdk.build_types import NVHardwareConfig
+    from netqasm.sdk.qubit import Qubit
+    from props import c05, c16
+    _, idx, stride = sh
+    part = new_part()
+    pool = c05.pool_reduced()
+    progs = [[a] for a in pool] + [[a, b] for a in pool for b in c05.pool_small()]
+    for stmts in progs[idx::stride]:
+        try:
+            tree, _st = c05.annotate(stmts)
+        except c05.Skip:
+            continue
+
+        class Rec(c05.Real):
+            def __init__(self):
+                self.conn = c16._Capture.make(hardware_config=NVHardwareConfig(5))
+                self.P = Qubit(self.conn)
+                self.A0 = self.conn.new_array(2, init_values=[0, 1])
+                self.locs = {(0, i): self.A0.get_future_index(i) for i in range(2)}
+                self.cells, self.cell_segment, self.segment, self.arrs = {}, {}, 0, {0: self.A0}
+        try:
+            r = Rec()
+            for nodes in tree:
+                r.build(nodes, {})
+            r.conn.flush()
+        except Exception:
+            count(part, "corpus-sdk-raised")
+            continue
+        for sub in r.conn.subs:
+            prog = refvm.program_from_subroutine(sub)
+            if not any(mn in GATE_MN for mn, _ in prog):
+                continue
+            count(part, "corpus-subroutines")
+            if any(mn == "mov" for mn, _ in prog):
+                count(part, "corpus-with-mov")
+            check_program("sdk-corpus", prog, "set", part, alloc=(), inits=("basis",))
+    return part
+
+
 def _dispatch(sh):
-    return {"s": shard, "mov": shard_mov}[sh[0]](sh)
+    return {"s": shard, "mov": shard_mov, "corpus": shard_corpus}[sh[0]](sh)
 
 
 def run(ctx):
-    shards: List[Any] = [("mov",)]
+    shards: List[Any] = [("mov",)] + [("corpus", i, 24) for i in range(24)]
     for src in ("set", "load"):
         for idx in range(len(groups(src, False))):
             shards.append(("s", src, idx, ctx.tier))
@@ -339,6 +383,7 @@ def run(ctx):
     for g in ("h", "x", "t", "rot_y", "cnot", "cphase"):
         ctx.require(f"group/{g}", 1)
     ctx.require("agree", 500)
+    ctx.require("corpus-subroutines", 100)
 
 
 def replay(case, part):
